@@ -32,6 +32,7 @@ SEEDS = {
  'C02b': ('C02', 'backmp11 state_visitor_impl active visit: loops interchanged (state list outer, regions inner)', 'exit of a multi-region machine while an earlier region is in a state with a larger id than a later region'),
  'C03b': ('C03', 'back start(): re-initialisation of m_states from the initial states removed ("the constructor did it")', 'stop() and start() again with a region off its initial state'),
  'C19a': ('C19', 'back g_row_: the after_action store was dropped', 'policy after_transition_action, guard-only row, observation from the target entry'),
+ 'C19b': ('C19', 'backmp11 transition::execute: the after_action state switch moved inside `if constexpr (HasAction)`', 'active_state_switch_after_transition_action, external row without an action, observation from the target entry'),
  'C20a': ('C20', 'basic_polymorphic_base move assignment: control block replaced before destroy()', 'deque erase in the middle with a neighbour of another storage class / destructor'),
  'C20b': ('C20', 'backmp11 basic_polymorphic IsInline: alignment test relaxed to alignof(max_align_t) although the inline buffer is only pointer-aligned', 'stored event with 8 < alignof <= 16 (long double, __int128, alignas(16)) that fits the buffer'),
 }
